@@ -144,6 +144,10 @@ func lastVoterReply(c *Cluster, m *Msg) int64 {
 
 // onWriteAcked: C04 at the acknowledgement of a replicated operation.
 func (c *Cluster) onWriteAcked(op *ClientOp) {
+	if c.Rec.ackedAt == nil {
+		c.Rec.ackedAt = map[uint64]*ClientOp{}
+	}
+	c.Rec.ackedAt[op.LogIndex] = op
 	c.checkOnMajorityDisk(op.LogIndex, op.LogTerm, hashBytes(op.Payload), fmt.Sprintf("acknowledgement of op%d", op.ID))
 }
 
@@ -457,12 +461,27 @@ func (c *Cluster) healPhase() {
 			}
 		}
 	}
-	// Restart crashed nodes: all of them, or (sometimes) only enough for a bare majority.
+	// The last fault (sometimes): the whole cluster goes down at once, and an arbitrary bare
+	// majority comes back - whatever terms, votes and log tails those nodes happen to hold.
+	if !cfg.Membership && !cfg.ApiFuzz && !cfg.StickyWindow && c.faultRng.Intn(5) == 0 {
+		r.probe("heal-after-full-cluster-crash")
+		for _, n := range c.Nodes {
+			if n.Inc != nil {
+				c.crashNode(n, "time")
+			}
+		}
+	}
+	// Restart crashed nodes: all of them, or (sometimes) only enough for a bare majority, in
+	// an arbitrary order.
 	var down []*Node
 	for _, n := range c.Nodes {
 		if n.Inc == nil && n.Started {
 			down = append(down, n)
 		}
+	}
+	for i := len(down) - 1; i > 0; i-- {
+		j := c.faultRng.Intn(i + 1)
+		down[i], down[j] = down[j], down[i]
 	}
 	onlyMajority := !cfg.Membership && c.faultRng.Intn(3) == 0
 	for _, n := range down {
@@ -481,6 +500,7 @@ func (c *Cluster) healPhase() {
 	}
 	deadline := healStart + budget
 	var probeOp *ClientOp
+	idleDone, idleDeadline, idleStuck, idleCause := false, int64(0), "", ""
 	stage := "no-leader"
 	detail := ""
 	for c.Sim.Now() < deadline {
@@ -495,6 +515,24 @@ func (c *Cluster) healPhase() {
 		if leader == nil {
 			stage, detail = "no-leader", c.statusLine()
 			continue
+		}
+		// (a') without any new operation, every running member reaches the leader's applied
+		// sequence: what was committed before is applied everywhere although nobody writes.
+		if !idleDone && !cfg.Membership && !cfg.ApiFuzz {
+			if idleDeadline == 0 {
+				idleDeadline = c.Sim.Now() + 20*cfg.electionNs()
+			}
+			if who := c.laggard(leader, true); who == "" {
+				idleDone = true
+				r.probe("heal-converged-while-idle")
+			} else if c.Sim.Now() < idleDeadline {
+				stage, detail = "not-converged", "(no new operations submitted yet) "+who+"; "+c.statusLine()
+				continue
+			} else {
+				idleDone = true
+				idleStuck = who + "; " + c.statusLine()
+				idleCause = c.livenessCause("not-converged")
+			}
 		}
 		// (b) a fresh operation succeeds.
 		if probeOp == nil || (probeOp.Returned && !probeOp.OK) {
@@ -518,6 +556,9 @@ func (c *Cluster) healPhase() {
 		break
 	}
 	r.ev("heal-end %s", stage)
+	if idleStuck != "" {
+		r.violate("C15", "liveness-not-converged-idle", idleCause, "20 election timeouts with one leader and no new operations: %s", idleStuck)
+	}
 	if stage != "ok" {
 		cause := c.livenessCause(stage)
 		if cfg.Membership {
@@ -630,7 +671,7 @@ func (c *Cluster) uniqueLeader() *Node {
 	return l
 }
 
-func (c *Cluster) laggard(leader *Node) string {
+func (c *Cluster) laggard(leader *Node, idle ...bool) string {
 	lsm := leader.Inc.SM
 	conf, ok := c.configuration(leader.Inc)
 	for _, n := range c.upNodes() {
@@ -645,7 +686,9 @@ func (c *Cluster) laggard(leader *Node) string {
 		// "Caught up" is about position, not content: equality of content at a
 		// position is what C01/C10 check, and must not be reported twice here.
 		sm := n.Inc.SM
-		if !n.Inc.haveStatus || n.Inc.lastStatus.LastApplied != leader.Inc.lastStatus.LastApplied || sm.lastIndexSinceRestore != lsm.lastIndexSinceRestore {
+		// (While nobody writes, only the applied index is compared: the index of the last operation
+		// a state machine was handed may be stale on a node that showed known finding F1/F2.)
+		if !n.Inc.haveStatus || n.Inc.lastStatus.LastApplied != leader.Inc.lastStatus.LastApplied || (len(idle) == 0 && sm.lastIndexSinceRestore != lsm.lastIndexSinceRestore) {
 			c.lagging = n
 			return fmt.Sprintf("%s has applied up to index %d (last operation %d), leader %s up to %d (last operation %d)",
 				n.ID, n.Inc.lastStatus.LastApplied, sm.lastIndexSinceRestore, leader.ID, leader.Inc.lastStatus.LastApplied, lsm.lastIndexSinceRestore)
